@@ -135,8 +135,10 @@ Proof. exact FeedbackFacts.source_after_sink_loses. Qed.
 Print Assumptions needs_source_before_sink_witness.
 
 (* ---- quiescence ------------------------------------------------------------------------ *)
-(* If everything due at the next cycle is a feedback source that no node reads ACTIVELY
-   (its readers are marked passive), and nothing is armed later, then that cycle delivers the
+(* If everything due at the next cycle is a feedback source to which no node is SUBSCRIBED
+   ([unread_source g i]: in state g every reader's input bound to i is passive at run time -
+   n_act, which is the declared i_active unless user code called make_passive / make_active),
+   and nothing is armed later, then that cycle delivers the
    values, evaluates nothing but those sources (no other node's state changes, nothing is
    captured), leaves the engine with no scheduled time, and the run loop stops there -
    whatever the end time.  (With an active reader the loop re-ticks every smallest step up
@@ -144,7 +146,7 @@ Print Assumptions needs_source_before_sink_witness.
 Theorem passive_loop_quiesces : forall cfgs kinds beh x,
   let T := g_nst (f_g x) in
   (forall i, (i < length cfgs)%nat -> slot_at i (f_g x) <= T) ->
-  (forall i, (i < length cfgs)%nat -> slot_at i (f_g x) = T -> unread_source cfgs kinds i) ->
+  (forall i, (i < length cfgs)%nat -> slot_at i (f_g x) = T -> unread_source cfgs kinds (f_g x) i) ->
   let x' := fcycle cfgs kinds beh T x in
   g_nst (f_g x') = MAX_DT /\
   (forall end_ fuel, frun cfgs kinds beh end_ (S fuel) x' = x') /\
@@ -208,16 +210,20 @@ Example ex_passive_hypotheses :
   let x := nth 3 (snd (run_of quiet_case)) (fstart cfgs kinds (script_beh quiet_case) 1) in
   g_nst (f_g x) = 6 /\
   (forall i, (i < length cfgs)%nat -> slot_at i (f_g x) <= g_nst (f_g x)) /\
-  (forall i, (i < length cfgs)%nat -> slot_at i (f_g x) = g_nst (f_g x) -> unread_source cfgs kinds i).
+  (forall i, (i < length cfgs)%nat -> slot_at i (f_g x) = g_nst (f_g x) -> unread_source cfgs kinds (f_g x) i).
 Proof.
   cbv beta iota zeta delta [graph_of].
   set (cfgs := map fst (parse_fnodes quiet_case)). set (kinds := map snd (parse_fnodes quiet_case)).
   set (x := nth 3 (snd (run_of quiet_case)) (fstart cfgs kinds (script_beh quiet_case) 1)).
   assert (Hs : map (fun i => slot_at i (f_g x)) [0;1;2;3]%nat = [5; 6; 5; 5] /\ g_nst (f_g x) = 6) by (vm_compute; split; reflexivity).
+  assert (Ha : map (fun i => n_act (node_at i (f_g x))) [0;1;2;3]%nat = [[]; []; [true; false]; [true; false]]) by (vm_compute; reflexivity).
   clearbody x. destruct Hs as [Hs Hn]. cbn [map] in Hs. injection Hs as S0 S1 S2 S3.
+  cbn [map] in Ha. injection Ha as A0 A1 A2 A3.
   split; [exact Hn|]. rewrite Hn. split.
   - intros i Hi. destruct i as [|[|[|[|i]]]]; try lia. vm_compute in Hi. lia.
   - intros i Hi He. destruct i as [|[|[|[|i]]]]; try lia; [|vm_compute in Hi; lia].
     split; [exists (Some 7); reflexivity|].
-    intros j. destruct j as [|[|[|[|j]]]]; try reflexivity. unfold act_from, cfg. simpl. destruct j; reflexivity.
+    intros j. unfold ract.
+    destruct j as [|[|[|[|j]]]]; [rewrite A0|rewrite A1|rewrite A2|rewrite A3|]; try reflexivity.
+    unfold cfg. simpl. destruct j; reflexivity.
 Qed.
